@@ -430,9 +430,27 @@ impl RenderContext {
         };
 
         let header = frame.header();
-        // Check if LF frame exists
-        if header.flags.use_lf_frame() && self.lf_frame[header.lf_level as usize] == usize::MAX {
-            return Err(Error::UninitializedLfFrame(header.lf_level));
+        if header.flags.use_lf_frame() {
+            // Check if LF frame exists
+            let lf_idx = self.lf_frame[header.lf_level as usize];
+            if lf_idx == usize::MAX {
+                return Err(Error::UninitializedLfFrame(header.lf_level));
+            }
+
+            // LF frame provides one sample per 8x8 block of this frame
+            let lf_header = self.frames[lf_idx].header();
+            let lf_width = header.color_sample_width().div_ceil(8);
+            let lf_height = header.color_sample_height().div_ceil(8);
+            if lf_header.sample_width(1) < lf_width || lf_header.sample_height(1) < lf_height {
+                tracing::error!(
+                    lf_width = lf_header.sample_width(1),
+                    lf_height = lf_header.sample_height(1),
+                    expected_lf_width = lf_width,
+                    expected_lf_height = lf_height,
+                    "LF frame is too small"
+                );
+                return Err(jxl_bitstream::Error::ValidationFailed("LF frame is too small").into());
+            }
         }
 
         // Check if blending sources cover the entire canvas. Regular frames are saved after
